@@ -83,7 +83,7 @@ def mismatch(env, fixture, hist):
     return None if got == tw.obs[-1][1] else (tw.obs[-1][1], got)
 
 def run(ctx):
-    agg = sx.run_catalogue(ctx, worker)
+    agg = sx.run_catalogue(ctx, worker, fixtures=('populated', 'empty', 'populated-seeds'))
     ctx.guard('committing histories', ctx.counters.get('committing_histories', 0), 100)
     ctx.guard('commits that changed rows', ctx.counters.get('commits_that_changed_rows', 0), 50)
     ctx.cov['per_model'] = agg['per_model']
